@@ -696,7 +696,7 @@ func runC16(cfg *config) {
 		}
 		return
 	}
-	r := newRng(cfg.seed)
+	r := seedRng(cfg.seed)
 	type pcase struct {
 		fd    *fndesc
 		names []string
@@ -705,7 +705,7 @@ func runC16(cfg *config) {
 	for _, c := range c16Corpus {
 		pcs = append(pcs, pcase{parseFn(c[0]), splitNames(c[1])})
 	}
-	perArity := 14
+	perArity := 30
 	if cfg.tier == "thorough" {
 		perArity = 120
 	}
@@ -743,7 +743,7 @@ func runC16(cfg *config) {
 			}
 		}
 	}
-	na, no := 60, 60
+	na, no := 150, 150
 	if cfg.tier == "thorough" {
 		na, no = 600, 600
 	}
